@@ -844,7 +844,9 @@ impl Parsed {
                     59 => {}
                     // `datetime` is known to be off by one second.
                     0 => {
-                        datetime -= TimeDelta::try_seconds(1).unwrap();
+                        datetime = datetime
+                            .checked_sub_signed(TimeDelta::try_seconds(1).unwrap())
+                            .ok_or(OUT_OF_RANGE)?;
                     }
                     // otherwise it is impossible.
                     _ => return Err(IMPOSSIBLE),
